@@ -39,6 +39,10 @@ def mod (a b : Int) : Res Int := if b = 0 then .panic "integer-divide-by-zero" e
 /-- Go `int` is 64-bit two's complement (same definition as `wrap64` of Model/Curves.lean) -/
 def wrap64 (n : Int) : Int := (n + 2^63) % 2^64 - 2^63
 
+/-- Go `a & b` on values of an unsigned type (`os.FileMode` is a `uint32`): exact for non-negative operands, the only
+    ones the translated code produces -/
+def land (a b : Int) : Int := ((a.toNat &&& b.toNat : Nat) : Int)
+
 def fatal {α : Type} : Res α := .panic "fatal"
 
 /-- `for i, v := range xs` -/
@@ -97,6 +101,18 @@ def liftRes {σ α : Type} (r : Res α) : GoM σ α := fun s => (r, s)
 /-- `m[k] = v` on a Go map (association list): replace the entry with that key, else add one (at the end) -/
 def mapSet {α : Type} (m : List (Int × α)) (k : Int) (v : α) : List (Int × α) :=
   if m.any (·.1 == k) then m.map (fun p => if p.1 == k then (k, v) else p) else m ++ [(k, v)]
+
+/-- `m[k] = v` on a Go map kept as a KEY-SORTED association list (the representation the hand-written models of the
+    start-up analysis use): replace the entry with that key, else insert it at its place -/
+def mapPut {α : Type} : List (Int × α) → Int → α → List (Int × α)
+  | [], k, v => [(k, v)]
+  | (k', v') :: rest, k, v =>
+    if k < k' then (k, v) :: (k', v') :: rest
+    else if k = k' then (k, v) :: rest
+    else (k', v') :: mapPut rest k v
+
+/-- the values of `for i := a; i >= b; i--` -/
+def downFrom (a b : Int) : List Int := (List.range (a - b + 1).toNat).map (fun (j : Nat) => a - (j : Int))
 
 /-- `len(s)` of a string (bytes) -/
 def lenS (s : String) : Int := s.utf8ByteSize
